@@ -1,5 +1,6 @@
 """C04 -- STOPGAP <-> cryoCAT conversion is a lossless renaming with parity half-sets"""
 from .common import *
+from . import C01 as _c01
 from sa import apicompat
 from . import C02 as _star
 from . import C01 as _em
@@ -256,6 +257,7 @@ def o47(ctx):
 
 def _obligations():
     return [
+        Obligation("O4.20", "EM files given by path: read_in returns every particle of the file, fields named in EM order, and a list made from a path holds that table (shared with C01)", _c01.o12, floor=20),
         Obligation("O4.1", "StopgapMotl.pairs is the documented bijective renaming of the 14 shared fields", o41, floor=15),
         Obligation("O4.2", "convert_to_sg_motl / convert_to_motl copy each field to its renamed column; halfset parity; motl_idx", o42, floor=50),
         Obligation("O4.3", "write_out writes the current table (all option combinations), right block name, fillna, order kept", o43, floor=100),
